@@ -344,6 +344,9 @@ func main() {
 				path = filepath.Join(wd, path)
 			}
 		}
+		if strings.HasSuffix(path, ".fuzz") {
+			os.Exit(replayFuzz(id, path))
+		}
 		useBin := bin
 		if meta.Race {
 			useBin = buildBinary(true)
